@@ -92,7 +92,7 @@ def conds(tier):
     q = tier == "quick"
     cs = []
     cp = [P("c%d" % i, "int", 1, None) for i in range(1, NC + 1)]
-    for (m, n) in ([(1, 3), (1, 5), (1, 6), (2, 3), (2, 4)] if q else [(1, 3), (1, 4), (1, 5), (1, 6), (1, 7), (2, 3), (2, 4), (3, 4), (2, 5)]):
+    for (m, n) in ([(1, 3), (1, 5), (1, 6), (2, 3), (2, 4)] if q else [(1, 3), (1, 4), (1, 5), (1, 6), (1, 7), (2, 3), (2, 4)]):
         hi = 3 if q else 4
         ps = e1_params(m, n) + cp + [P("opt", "bool"), P("mk", "bool"), P("v", "int", 0, hi), P("h", "int", 0, hi),
                                      P("nf", "bool"), P("r", "bool"), P("sp", "bool")]
@@ -102,7 +102,7 @@ def conds(tier):
                        skip=lambda sf: (not sf["mk"]) and bool(sf.get("v", 0) or sf.get("h", 0) or sf.get("nf", False)),
                        timeout=600 if q else 3000, functions=FUNCS, note="counts c1..c8: unbounded symbolic positive integers"))
     from harness.symtree import e1_wf_expr as _wfe
-    for (m, n) in ([(3, 3)] if q else [(3, 3), (3, 4)]):
+    for (m, n) in [(3, 3)]:
         ps = e1_params(m, n, "a") + e1_params(m, n, "b") + cp + [P("opt", "bool"), P("v", "int", 0, 3), P("h", "int", 0, 2), P("nf", "bool")]
         cs.append(Cond("twotrees-m%d-n%d" % (m, n), "harness.c08:counts", ps,
                        fixed={"m": m, "n": n, "mk": True, "two": True, "r": True, "sp": False},
